@@ -81,7 +81,10 @@ C14StepChecks(k, e, s, t, gv) ==
       u == e.sender
       V0 == Vesting(s, u)  V1 == Vesting(t, u)
       vestMsg == k = "Tx" /\ e.ok /\ e.name \in {"commitment.MsgVest", "commitment.MsgVestLiquid", "commitment.MsgClaimVesting", "commitment.MsgCancelVest"}
-      badFrame == {a \in as : Vesting(t, a) # Vesting(s, a) /\ ~(vestMsg /\ a = u)}
+      \* (at the start of its provider epoch estaking claims and re-vests the Eden of the provider reward account in the begin blocker:
+      \* the protocol acting for its own module account)
+      providerEpoch(a) == k = "Begin" /\ a = "mod:cons_to_send_to_provider"
+      badFrame == {a \in as : Vesting(t, a) # Vesting(s, a) /\ ~(vestMsg /\ a = u) /\ ~providerEpoch(a)}
       HasInfo(d) == d \in DOMAIN s.commit.vestInfo
   IN
   { Chk("C14", "C14.step.vesting_entries_change_only_by_owner_vest_claim_cancel",
